@@ -11,3 +11,6 @@ def run(rep: Report, repo: Repo, tier: str) -> None:
     bindings.rule_set_partition(rep, repo, "C10-R1")
     render.rule_variable_rendering(rep, repo, "C10-R2")
     bindings.rule_option_binding(rep, repo, "C10-R3")
+    from . import writer_rules
+    # "default value is the value text as written": fields serialise their value unmodified
+    writer_rules.rule_values_verbatim(rep, repo, "C10-R4")
